@@ -292,7 +292,10 @@ void gen_c20(Plan &p, Rng &r, bool thorough) {
       flags.push_back(r.coin() ? "-b" : "--breaks");
       flags.push_back(std::to_string(N));
     }
-    if (run && !rnd) flags.push_back(r.chance(1, 3) ? "-r=3" : r.coin() ? "-r" : "--return");
+    if (run && !rnd) {
+      static const char *rf[] = {"-r=3", "-r3", "--return=2", "-r17"};
+      flags.push_back(r.chance(1, 3) ? rf[r.below(4)] : r.coin() ? "-r" : "--return");
+    }
     if (rnd) flags.push_back("--rand");
     // program
     std::vector<std::string> prog;
